@@ -4,9 +4,11 @@ import Dicom.Spec.Table910
 import Dicom.Model.Framing
 import Dicom.Model.Dimse
 import Dicom.Model.Limits
+import Dicom.Model.PduCanon
 import Dicom.Model.CmdSet
 import Dicom.Spec.CmdSetGrammar
 import Dicom.Spec.CommandFields
+import Dicom.Spec.PduGrammar
 /-! Line-protocol driver: one op per input line, one output line per op.
 Imports models and specifications only (never Generated or Props), core Lean only. -/
 open Dicom
@@ -160,6 +162,18 @@ def step (line : String) : String :=
     match own.toNat?, peer.toNat? with
     | some own, some peer => s!"acc={acceptorLimit own peer} ann={acceptorAnnounce own peer} req={requesterLimit own peer}"
     | _, _ => "bad-op"
+  | ["dec-pdu", hex] =>
+    match hexToBytes hex with
+    | some bs => match decodePdu bs with
+      | some p => s!"{p.canon} | {bytesToHex p.enc} | {p.totalLength}"
+      | none => "error"
+    | none => "bad-op"
+  | ["spec-pdu", hex] =>
+    match hexToBytes hex with
+    | some bs => match Spec.parsePdu bs with
+      | some p => (Spec.unpadTitles p).canon
+      | none => "reject"
+    | none => "bad-op"
   | ["cf-of", name] =>
     match Spec.commandFieldTable.find? (fun e => e.2 = name) with
     | some e => toString e.1
